@@ -86,6 +86,9 @@ type engine struct {
 	perOp    map[string]int
 	capped   bool
 	guard    time.Duration
+	// per group and per pass: inputs left when it is reached are skipped (not counted)
+	groupBudget   time.Duration
+	groupDeadline time.Time
 }
 
 func (e *engine) expired() bool {
@@ -130,6 +133,10 @@ func (e *engine) runBatch(jobs []job) []result {
 		go func() {
 			defer wg.Done()
 			for i := range ch {
+				if !e.groupDeadline.IsZero() && time.Now().After(e.groupDeadline) {
+					out[i] = result{status: "skipped"}
+					continue
+				}
 				out[i] = e.eval(jobs[i].run, jobs[i].input())
 			}
 		}()
@@ -172,6 +179,11 @@ func opGroup(op string) string {
 }
 
 func (e *engine) record(j job, r result) {
+	if r.status == "skipped" {
+		e.out.Hit("skipped:group-time-budget")
+		e.capped = true
+		return
+	}
 	in := j.input()
 	// same accounting as res.Result.Count, with a 64-bit hash of (entry point, input) as the
 	// distinctness key: the thorough tier evaluates ~2*10^7 inputs, whose texts would not fit in memory
@@ -243,6 +255,7 @@ func (e *engine) runGroup(g group, st *gstate) {
 	}
 	pool := st.pool
 	defer func() { st.pool = pool }()
+	e.groupDeadline = time.Now().Add(e.groupBudget)
 	done := 0
 	addPool := func(js []job, rs []result) {
 		for i, x := range rs {
@@ -256,7 +269,7 @@ func (e *engine) runGroup(g group, st *gstate) {
 			}
 		}
 	}
-	for done < total && !e.expired() {
+	for done < total && !e.expired() && time.Now().Before(e.groupDeadline) {
 		half := batch / 2
 		if half > total-done {
 			half = total - done
@@ -271,7 +284,7 @@ func (e *engine) runGroup(g group, st *gstate) {
 		}
 		addPool(js, rs)
 		done += len(js)
-		if done >= total || e.expired() {
+		if done >= total || e.expired() || time.Now().After(e.groupDeadline) {
 			break
 		}
 		js = js[:0:0]
@@ -1706,6 +1719,19 @@ func runCounterDescriptors(in string) bool {
 
 var counterValues = []int{-2, -1, 0, 1, 2, 3, 4, 5, 6, 7, 8, 9, 10, 11, 12, 1000000}
 
+// bigValue: 10^6 (a megabyte of symbols in the symbolic system) for one input in four, 1000 otherwise
+func bigValue(in string, v int) int {
+	if v < 1000 {
+		return v
+	}
+	h := fnv.New32a()
+	h.Write([]byte(in))
+	if h.Sum32()%4 == 0 {
+		return v
+	}
+	return 1000
+}
+
 func renderable(d counters.CounterStyleDescriptors) bool {
 	if d.Pad.Int > 100000 {
 		return false
@@ -1715,7 +1741,7 @@ func renderable(d counters.CounterStyleDescriptors) bool {
 
 // renderCounters generates the representation of some values with every counter style of cs that is
 // not in the user-agent table.
-func renderCounters(cs counters.CounterStyle) int {
+func renderCounters(cs counters.CounterStyle, in string) int {
 	var names []string
 	for n := range cs {
 		if _, ua := tree.UACounterStyle[n]; !ua {
@@ -1729,7 +1755,7 @@ func renderCounters(cs counters.CounterStyle) int {
 			continue
 		}
 		for _, v := range counterValues {
-			cs.RenderValue(v, name)
+			cs.RenderValue(bigValue(in, v), name)
 			if v < 1000 {
 				cs.RenderMarker(pr.CounterStyleID{Name: name}, v)
 			}
@@ -1754,7 +1780,7 @@ func runCSSDefault(in string) bool {
 		return false
 	}
 	_ = css.IsNone()
-	renderCounters(cs)
+	renderCounters(cs, in)
 	rules := pa.ParseStylesheetBytes([]byte(in), true, true)
 	if len(rules) == 0 {
 		return false
@@ -1777,7 +1803,7 @@ func runCounterRender(in string) bool {
 			if id, is := d.Value.(pr.CounterStyleID); is {
 				ok = true
 				for _, v := range counterValues {
-					cs.RenderValueStyle(v, id)
+					cs.RenderValueStyle(bigValue(in, v), id)
 					if v < 1000 {
 						cs.RenderMarker(id, v)
 					}
@@ -1789,7 +1815,7 @@ func runCounterRender(in string) bool {
 	if _, err := tree.VerifC07NewCSS(utils.InputString(in), safeFetch, cs); err != nil {
 		return false
 	}
-	return renderCounters(cs) > 0
+	return renderCounters(cs, in) > 0
 }
 
 func runPageDescriptors(in string) bool {
@@ -1955,9 +1981,9 @@ func cssText(g *cssGen) string {
 func RunSearch(tier string, seed uint64, repo string, out *res.Result) error {
 	render.Quiet()
 	t0 := time.Now()
-	scale, limit := 1, 10*time.Minute
+	scale, limit, groupBudget := 1, 10*time.Minute, 2*time.Minute
 	if tier == "thorough" {
-		scale, limit = 30, 20*time.Minute
+		scale, limit, groupBudget = 30, 20*time.Minute, 40*time.Second
 	}
 	workers := 8
 	if s := os.Getenv("WRH_C07_WORKERS"); s != "" {
@@ -1974,7 +2000,7 @@ func RunSearch(tier string, seed uint64, repo string, out *res.Result) error {
 	if len(d.decls) < 50 || len(d.keywords) < 200 {
 		out.Notes = append(out.Notes, fmt.Sprintf("c07 search: small run-time corpus (%d declarations, %d keywords) harvested from %s/css", len(d.decls), len(d.keywords), repo))
 	}
-	e := &engine{out: out, workers: workers, t0: t0, limit: limit, classes: map[string]*class{}, distinct: map[uint64]struct{}{}, perOp: map[string]int{}, guard: 5 * time.Second}
+	e := &engine{out: out, workers: workers, t0: t0, limit: limit, classes: map[string]*class{}, distinct: map[uint64]struct{}{}, perOp: map[string]int{}, guard: 5 * time.Second, groupBudget: groupBudget}
 	root := rng.New(seed ^ 0xC07)
 	fonts := &fontPool{repo: repo}
 
@@ -2036,7 +2062,7 @@ func RunSearch(tier string, seed uint64, repo string, out *res.Result) error {
 		}},
 		{name: "font-face-descriptors", n: 15000, base: simple("font-face-descriptors", runFontFace, func(g *cssGen) string { return g.fontFaceDecls() })},
 		{name: "counter-style-descriptors", n: 15000, base: simple("counter-style-descriptors", runCounterDescriptors, func(g *cssGen) string { return g.counterStyleDecls(false) })},
-		{name: "counter-style-render", n: 15000, base: simple("counter-style-render", runCounterRender, func(g *cssGen) string {
+		{name: "counter-style-render", n: 15000, batch: 1000, base: simple("counter-style-render", runCounterRender, func(g *cssGen) string {
 			r := g.r
 			if r.P(1, 5) {
 				e := validDecls[0]
@@ -2214,7 +2240,7 @@ func RunSearch(tier string, seed uint64, repo string, out *res.Result) error {
 	out.Dist["corpus:test-declarations"] = len(d.decls)
 	out.Dist["corpus:keywords"] = len(d.keywords)
 	if e.capped {
-		out.Notes = append(out.Notes, fmt.Sprintf("c07 search: time cap of %s reached, remaining inputs skipped (the run is deterministic per seed only below the cap)", limit))
+		out.Notes = append(out.Notes, fmt.Sprintf("c07 search: time cap of %s (or the per-group budget) reached, remaining inputs skipped (the run is deterministic per seed only below the cap)", limit))
 		out.Hit("time-cap-reached")
 	}
 	e.report()
